@@ -1,4 +1,7 @@
 """Registry: one function per property id. Each returns the process exit code (0 / 1); ToolError -> 2."""
+import json
+import os
+
 from . import flwcheck as F
 from . import flwgen as G
 
@@ -218,6 +221,140 @@ def _rand_c07(rng, tier, sc0):
     return out
 
 
+class _CleanQ:
+    """FlwCleanQ.tla: the background cleanup thread, its channel and the limits at shutdown - model checked for every
+    interleaving of the cleanup steps with further rotations, its behaviours stepped through the real code with the
+    cleanup thread held at its hook points (TraceFlwCleanQ.tla: equal directory contents, predicted park points)."""
+    KM = [(1, 1), (0, 1), (2, 0), (0, 2), (1, 0), (1, 2)]
+
+    def before(self, wd, tier, seed, sc0):
+        import random
+        from . import common as C
+        mc_stats, states, transitions = [], 0, 0
+        t = "q" if tier == "quick" else "t"
+        for (k, m) in self.KM:
+            cfg = f"MCFlwCleanQ_{t}_{k}{m}.cfg"
+            r = C.run_tlc("MCFlwCleanQ.tla", os.path.join(C.SPEC, cfg), os.path.join(wd, "mcq-" + cfg), workers=2, timeout=900)
+            if r["violated"] or r["deadlock"]:
+                raise C.ToolError(f"FlwCleanQ/{cfg} violates {r['violated']}: the model or the formalisation is wrong")
+            mc_stats.append({"module": "FlwCleanQ", "cfg": cfg, "states": r["states"], "transitions": r["transitions"],
+                             "depth": r["depth"], "wall_s": r["wall_s"]})
+            states += r["states"]
+            transitions += r["transitions"]
+        for v, must in (("die_overrides", True), ("no_join", True), ("coalesce_acts", False)):
+            r = C.run_tlc("MCFlwCleanQ.tla", os.path.join(C.SPEC, f"MCFlwCleanQ_{v}.cfg"), os.path.join(wd, "mcq-" + v), workers=1,
+                          timeout=300)
+            if must != ("C07_LimitsAtShutdown" in (r["violated"] or [])) or (not must and r["violated"]):
+                raise C.ToolError(f"FlwCleanQ variant {v}: expected {'a violation of' if must else 'no violation of'} "
+                                  f"C07_LimitsAtShutdown, got {r['violated']}")
+        C.log(f"[C07] TLC FlwCleanQ.tla ({len(self.KM)} cleanup configurations x {3 if tier == 'quick' else 5} rotations, every "
+              f"interleaving of recv / listing / remove / compression steps with rotations and shutdown): {states} distinct states; "
+              f"LimitsAtShutdown, NotRemovedEarly, NotCompressedEarly, OriginalUntilFinished and the liveness property ShutdownReturns "
+              f"hold; the variants 'a Die overrides queued Acts' and 'shutdown does not join' violate LimitsAtShutdown, "
+              f"'consecutive Acts coalesced' does not (sanity of the invariant)")
+        scens = []
+        rng = random.Random(seed * 31 + 7)
+        self.nbeh = 0
+        for (k, m) in self.KM:
+            reps = []
+            for g in (["gen"] if tier == "quick" else ["gen", "gent"]) + (["gent"] if tier == "quick" and (k, m) == (1, 1) else []):
+                cfg = f"MCFlwCleanQ_{g}_{k}{m}.cfg"
+                r = C.run_tlc("MCFlwCleanQ.tla", os.path.join(C.SPEC, cfg), os.path.join(wd, "genq-" + cfg), workers=1, timeout=600)
+                rr = C.replay_lines(r)
+                if g == "gent" and tier == "quick":
+                    rng.shuffle(rr)
+                    rr = rr[:60]
+                reps += rr
+                states += r["states"]
+                transitions += r["transitions"]
+            self.nbeh += len(reps)
+            for j, rp in enumerate(reps):
+                steps = [{"op": "HoldCleaner"}, {"op": "Start", "append": False}]
+                for st in rp["steps"]:
+                    op = st["op"]
+                    if op == "Rotate":
+                        steps += [{"op": "Log", "len": rng.choice([9, 12, 40])}, {"op": "Trigger", "q": "Rotate"}]
+                    elif op == "CRecv":
+                        steps.append({"op": "CGo", "q": "CRecv", "exit": st["m"] == "Die"})
+                    elif op in ("CList", "CStep"):
+                        steps.append({"op": "CGo", "q": op})
+                    elif op == "Shutdown":
+                        steps.append({"op": "ShutdownBegin"})
+                    elif op == "Join":
+                        steps.append({"op": "ShutdownEnd"})
+                steps.append({"op": "Stop", "shutdown": False})
+                c = {"naming": "Num", "rot": True, "size": 1000000, "mode": ["direct", "buf"][j % 2],
+                     "cap": 64, "bg": True, "crlf": False}
+                if k or not m:
+                    c["k"] = k
+                if m:
+                    c["m"] = m
+                scens.append({"sc": sc0 + len(scens), "cfg": c, "t0": 1000, "steps": steps, "origin": "tlc:FlwCleanQ",
+                              "obs": "sync", "cq": {"k": k, "m": m}})
+        self.n = len(scens)
+        return scens, mc_stats, states, transitions
+
+    def after(self, res, wd):
+        import concurrent.futures
+        import re
+        from . import common as C
+        per = {}
+        for tf in res["traces"]:
+            cur = None
+            for line in open(tf):
+                if '"ev":"Begin"' in line:
+                    cur = None
+                    if '"origin":"tlc:FlwCleanQ"' in line:
+                        e = json.loads(line)
+                        cur = (e["cfg"].get("k", 0), e["cfg"].get("m", 0))
+                if cur is not None:
+                    per.setdefault(cur, []).append(line)
+        drifts = []
+
+        def one(km):
+            lines = per[km]
+            out = []
+            for rnd in range(4):
+                tf = os.path.join(wd, f"cq-{km[0]}{km[1]}-{rnd}.ndjson")
+                open(tf, "w").writelines(lines)
+                r = C.run_tlc("TraceFlwCleanQ.tla", os.path.join(C.SPEC, "TraceFlwCleanQ.cfg"),
+                              os.path.join(wd, f"cq-meta-{km[0]}{km[1]}-{rnd}"), workers=1, timeout=900,
+                              env={"TRACE": tf, "K": str(km[0]), "M": str(km[1])}, xmx="2g")
+                consumed = 0
+                for tag, rest in r["printed"]:
+                    if tag == "CONSUMED":
+                        consumed = int(re.findall(r"\d+", rest)[0])
+                if consumed == len(lines):
+                    break
+                bad = r["depth"]
+                if bad < 1 or bad > len(lines):
+                    raise C.ToolError(f"conform mode (cleanup thread): cannot locate the unexplained event ({tf}, depth {bad})")
+                e = json.loads(lines[bad - 1])
+                out.append((e.get("sc"), e.get("n"), e.get("ev") + ":" + str(e.get("q", ""))))
+                b0 = max(j for j in range(bad) if '"ev":"Begin"' in lines[j])
+                b1 = next((j for j in range(bad, len(lines)) if '"ev":"Begin"' in lines[j]), len(lines))
+                lines = lines[:b0] + lines[b1:]
+                if not lines:
+                    break
+            return out
+
+        with concurrent.futures.ThreadPoolExecutor(max_workers=6) as ex:
+            for d in ex.map(one, list(per)):
+                drifts += d
+        nev = sum(len(v) for v in per.values())
+        C.log(f"[C07] FlwCleanQ.tla on the code: {self.n} behaviours ({self.nbeh} generated) stepped through the real cleanup thread "
+              f"(held in front of every recv, at the start of every run and in front of every file-system effect), {nev} events; "
+              f"conform mode (TraceFlwCleanQ.tla: every step is the specification's action, equal sets of plain / compressed files, "
+              f"the thread parks where the specification predicts, limits when shutdown() has returned): "
+              + ("all accepted" if not drifts else f"{len(drifts)} not accepted"))
+        for (dsc, dn, dev) in drifts[:10]:
+            C.log(f"NOTE conformance-drift: scenario {dsc} event {dn} ({dev}) is not a step of FlwCleanQ.tla - the code no longer "
+                  f"follows the detailed model there (no property verdict; the monitor decides the property)")
+        return {"conform_mode_cleanup_thread": {"spec": "TraceFlwCleanQ.tla", "behaviours_replayed": self.n, "events_checked": nev,
+                                                "accepted": self.n - len({d[0] for d in drifts}),
+                                                "drifts": [{"sc": d[0], "n": d[1], "ev": d[2]} for d in drifts[:20]]}}
+
+
 def C07(tier, seed):
     mc = [("MCFlw.tla", "MCFlw_C07q.cfg" if tier == "quick" else "MCFlw_C07t.cfg", 8, 2400)]
     gen = [("MCFlw.tla", "MCFlw_C07gen.cfg" if tier == "quick" else "MCFlw_C07gent.cfg", None, None)]
@@ -228,8 +365,9 @@ def C07(tier, seed):
                  rule="(a) one maximal behaviour per distinct state of the bounded Flw model with cleanup "
                       "(k in 0..1(2), m in 0..1, four namings, restarts, forced rotations); (b) seeded random histories "
                       "with k up to 5, m up to 4, suffix catalogue {log,txt,trc,a,z,none}, sync/background/async "
-                      "cleanup. distinct = distinct (cfg, step list) pairs",
-                 regress=("C07.ndjson",))
+                      "cleanup. distinct = distinct (cfg, step list) pairs; (c) every behaviour of FlwCleanQ.tla with 2 "
+                      "(quick; a sample with 3) / 3 (thorough) rotations replayed with the cleanup thread under schedule control",
+                 regress=("C07.ndjson",), extra=_CleanQ())
 
 
 def _rand_c09(rng, tier, sc0):
